@@ -4,9 +4,9 @@
 package lab
 
 import (
-	"crypto/elliptic"
 	"crypto"
 	"crypto/ecdsa"
+	"crypto/elliptic"
 	"crypto/rand"
 	"crypto/rsa"
 	"crypto/x509"
